@@ -11,6 +11,8 @@ use crate::refval::{Arr, Bv, Val};
 use num_bigint::BigUint;
 use num_traits::ToPrimitive;
 use patronus::expr::{Context, ExprRef, Type, TypeCheck};
+#[allow(unused_imports)]
+use std::collections::HashSet;
 use patronus::system::TransitionSystem;
 use std::collections::{HashMap, VecDeque};
 
@@ -96,10 +98,14 @@ impl<'a> RefSim<'a> {
         env
     }
     /// Initial state: `free[k]` is used for init-less states; init-ed states are computed in
-    /// declaration order over the already determined earlier states.
-    pub fn initial(&self, free: &[Val]) -> Result<Vec<Val>, String> {
+    /// declaration order over the already determined earlier states and the inputs of step 0
+    /// (an init expression may mention inputs: the initial state then depends on the first input).
+    pub fn initial(&self, free: &[Val], inputs0: &[Val]) -> Result<Vec<Val>, String> {
         let mut vals: Vec<Val> = Vec::with_capacity(self.sys.states.len());
         let mut env = Env::default();
+        for (k, i) in self.sys.inputs.iter().enumerate() {
+            env.insert(*i, inputs0[k].clone());
+        }
         for (k, s) in self.sys.states.iter().enumerate() {
             let v = match s.init {
                 None => free[k].clone(),
@@ -220,30 +226,84 @@ pub fn reachability(sim: &RefSim) -> Result<Reach, String> {
     let free_next: Vec<usize> = (0..sim.sys.states.len()).filter(|k| sim.sys.states[*k].next.is_none()).collect();
     let zero: Vec<Val> = sim.state_types.iter().map(|t| decode_value(*t, 0)).collect();
 
+    let init_uses_inputs = {
+        let roots: Vec<ExprRef> = sim.sys.states.iter().filter_map(|s| s.init).collect();
+        refeval::symbols_of(sim.ctx, &roots).iter().any(|s| sim.sys.inputs.contains(s))
+    };
+    let next_combos = sim.free_combinations(&free_next);
+    let mut min_bad: Vec<Option<u32>> = vec![None; n_bad];
     let mut depth_of: HashMap<u64, u32> = HashMap::new();
     let mut queue: VecDeque<(u64, u32)> = VecDeque::new();
+    let mut diameter = 0;
+    let mut enabled_succ: HashMap<u64, Vec<u64>> = HashMap::new();
+    let mut has_enabled_input: HashMap<u64, bool> = HashMap::new();
+    // ---- step 0: (initial state, first input) pairs; the initial state may depend on the first input
+    // pairs: (state code, input code) ; when init does not read inputs every input pairs with s0
+    let mut init_pairs: Vec<(u64, u64)> = vec![];
+    let zero_inputs: Vec<Val> = sim.input_types.iter().map(|t| decode_value(*t, 0)).collect();
     for combo in sim.free_combinations(&free_init) {
         let mut free = zero.clone();
         for (k, v) in combo {
             free[k] = v;
         }
-        let s0 = sim.initial(&free)?;
-        let code = sim.encode_state(&s0);
-        if !depth_of.contains_key(&code) {
-            depth_of.insert(code, 0);
-            queue.push_back((code, 0));
+        if init_uses_inputs {
+            for icode in 0..(1u64 << ibits) {
+                let inp = sim.decode_inputs(icode);
+                let s0 = sim.initial(&free, &inp)?;
+                init_pairs.push((sim.encode_state(&s0), icode));
+            }
+        } else {
+            let s0 = sim.initial(&free, &zero_inputs)?;
+            let code = sim.encode_state(&s0);
+            for icode in 0..(1u64 << ibits) {
+                init_pairs.push((code, icode));
+            }
         }
     }
-    let next_combos = sim.free_combinations(&free_next);
-    let mut min_bad: Vec<Option<u32>> = vec![None; n_bad];
-    let mut diameter = 0;
-    // longest execution: depth d is "alive" if some state at BFS depth d has an enabled input
-    // (every reachable state is first seen at its minimal depth, but executions may revisit states:
-    // track per state whether it has an enabled transition, then compute the longest path / cycle)
-    let mut enabled_succ: HashMap<u64, Vec<u64>> = HashMap::new();
-    let mut has_enabled_input: HashMap<u64, bool> = HashMap::new();
+    init_pairs.sort();
+    init_pairs.dedup();
+    // enabled initial pairs and their successors
+    let mut init_enabled: Vec<(u64, u64, Vec<u64>)> = vec![];
+    for (code, icode) in init_pairs.iter() {
+        depth_of.entry(*code).or_insert(0);
+        let s = sim.decode_state(*code);
+        let inp = sim.decode_inputs(*icode);
+        let obs = sim.observe(&s, &inp)?;
+        if !obs.constraints_ok {
+            continue;
+        }
+        for (j, b) in obs.bads.iter().enumerate() {
+            if *b {
+                min_bad[j] = Some(0);
+            }
+        }
+        let mut succs = vec![];
+        for combo in next_combos.iter() {
+            let mut free = zero.clone();
+            for (k, v) in combo {
+                free[*k] = v.clone();
+            }
+            let n = sim.next(&s, &inp, &free)?;
+            let ncode = sim.encode_state(&n);
+            if !succs.contains(&ncode) {
+                succs.push(ncode);
+            }
+        }
+        init_enabled.push((*code, *icode, succs));
+    }
+    // ---- steps >= 1: ordinary breadth-first search over states with all inputs
+    let mut seen_later: HashMap<u64, u32> = HashMap::new();
+    for (_, _, succs) in init_enabled.iter() {
+        for n in succs {
+            if !seen_later.contains_key(n) {
+                seen_later.insert(*n, 1);
+                queue.push_back((*n, 1));
+            }
+        }
+    }
     while let Some((code, d)) = queue.pop_front() {
         diameter = diameter.max(d);
+        depth_of.entry(code).or_insert(d);
         let s = sim.decode_state(code);
         let mut succs: Vec<u64> = vec![];
         let mut any_enabled = false;
@@ -269,8 +329,8 @@ pub fn reachability(sim: &RefSim) -> Result<Reach, String> {
                 if !succs.contains(&ncode) {
                     succs.push(ncode);
                 }
-                if !depth_of.contains_key(&ncode) {
-                    depth_of.insert(ncode, d + 1);
+                if !seen_later.contains_key(&ncode) {
+                    seen_later.insert(ncode, d + 1);
                     queue.push_back((ncode, d + 1));
                 }
             }
@@ -279,28 +339,30 @@ pub fn reachability(sim: &RefSim) -> Result<Reach, String> {
         enabled_succ.insert(code, succs);
     }
     // Number of steps N such that constraints can hold at steps 0..N-1 on some execution:
-    // A_1 = states with an enabled input; A_{k+1} = states with an enabled input leading into A_k.
-    // If some initial state is in A_k for k = |S|+1 the executions are unbounded.
-    let inits: Vec<u64> = depth_of.iter().filter(|(_, d)| **d == 0).map(|(c, _)| *c).collect();
+    // A_1 = later states with an enabled input; A_{k+1} = those with an enabled input leading into A_k.
     let mut alive: std::collections::HashSet<u64> =
         has_enabled_input.iter().filter(|(_, e)| **e).map(|(c, _)| *c).collect();
     let mut max_execution_len: u32 = 0;
-    let bound = depth_of.len() as u32 + 1;
-    loop {
-        if !inits.iter().any(|s| alive.contains(s)) {
-            break;
+    if !init_enabled.is_empty() {
+        max_execution_len = 1;
+        let bound = seen_later.len() as u32 + 2;
+        loop {
+            // N >= max_execution_len + 1 iff some enabled initial pair leads into A_{max_execution_len}
+            if !init_enabled.iter().any(|(_, _, succs)| succs.iter().any(|n| alive.contains(n))) {
+                break;
+            }
+            max_execution_len += 1;
+            if max_execution_len > bound {
+                max_execution_len = u32::MAX;
+                break;
+            }
+            let next_alive: std::collections::HashSet<u64> = alive
+                .iter()
+                .copied()
+                .filter(|s| enabled_succ[s].iter().any(|n| alive.contains(n)))
+                .collect();
+            alive = next_alive;
         }
-        max_execution_len += 1;
-        if max_execution_len > bound {
-            max_execution_len = u32::MAX;
-            break;
-        }
-        let next_alive: std::collections::HashSet<u64> = alive
-            .iter()
-            .copied()
-            .filter(|s| enabled_succ[s].iter().any(|n| alive.contains(n)))
-            .collect();
-        alive = next_alive;
     }
     let _ = BigUint::from(0u32);
     Ok(Reach { min_bad_depth: min_bad, reachable: depth_of.len(), diameter, max_execution_len, depth_of })
